@@ -8,6 +8,8 @@ pub mod c07;
 pub mod c09;
 pub mod c10;
 pub mod c11;
+pub mod c12;
+pub mod c14;
 pub mod c15;
 pub mod c16;
 pub mod c19;
@@ -23,6 +25,8 @@ pub fn lookup(id: &str) -> Option<Box<dyn Property>> {
         "C09" => Box::new(c09::C09),
         "C10" => Box::new(c10::C10),
         "C11" => Box::new(c11::C11),
+        "C12" => Box::new(c12::C12),
+        "C14" => Box::new(c14::C14),
         "C15" => Box::new(c15::C15),
         "C16" => Box::new(c16::C16),
         "C19" => Box::new(c19::C19),
